@@ -113,7 +113,7 @@ Definition tt_nextGeneration (t : TT) : TT :=
   mkTT (slots t) ((generation t + 1) mod 16) (tableSize t) (usedSize t) (tbResident t)
        (notUsedCnt t) (contemptHash t).
 
-Definition contempt_mult : N := 11400714819323198791.   (* 0x9E3779B97DE88147 *)
+Definition contempt_mult : N := 11400714819300000071.   (* 0x9E3779B97DE88147 *)
 Definition contempt_hash (c : Z) : N :=
   if (0 <? c)%Z then mask64 (contempt_mult * Z.to_N c)
   else if (c <? 0)%Z then two64 - 1 - mask64 (contempt_mult * Z.to_N (- c))
